@@ -362,7 +362,7 @@ def calendarInitCD (F : Fn α) (c : CalCDIn α) : Except String (CalCDOut α) :=
   let hiEndCD := c.hiStartCD + c.yldFormCD
   let fl : α × α × α :=
     if c.cropType = 3 then (c.hiStartCD + c.floweringCD, c.floweringEnd, c.floweringCD)
-    else (-999, -999, -999)
+    else (-999, -999, c.floweringCD)   -- `FloweringCD` (an input, read above) is left as given
   if c.switchGDD then .error "E:unsupported"
   else
     .ok { canopyDevEndCD := canopyDevEndCD, canopy10PctCD := canopy10PctCD,
